@@ -33,7 +33,7 @@ ALPHA = dict(
     rest_stress_rel=1e-9,       # ||P(rest)|| <= rest_stress_rel * Emod
     energy_rel=1e-9,            # energies equal: |dW| <= energy_rel*max|W| + energy_abs*Kref
     energy_abs=1e-13,           #   (Kref = largest modulus; rounding of J, I1 at O(1) entries is eps*Kref)
-    stress_sym_rel=1e-9,        # ||tau - tau^T|| <= stress_sym_rel*||tau|| + stress_abs*Kref
+    stress_sym_rel=1e-9,        # ||tau - tau^T|| <= stress_sym_rel*||tau|| + stress_abs*Kref (+ 10*tol*Y0 for J2)
     stress_abs=1e-12,
     stress_eq_rel=1e-8,         # stresses equal (before/after commit): ||dP|| <= rel*max||P|| + 10*tol*Y0
     det_abs=1e-10,              # |det Fp - 1|, |det Fv - 1|, |tr eps_p|
@@ -517,8 +517,10 @@ class Point:
     def _track(self, key, val):
         """largest fraction of an allowance used by an evaluation that is within it (margin of the tolerances)"""
         mr = self.stats["max_rel"]
-        if key in ("energy", "sym_stress") and os.environ.get("MP_CALIB"):
-            key = key + ":" + self.m["model"] + ":" + self.r.mode
+        if self.r.mode == "vmapBatch":
+            key += ":batch"
+        if os.environ.get("MP_CALIB"):
+            key = key + ":" + self.m["model"] + ":" + self.r.mode + (":deg" if self.gap < 1e-6 else "")
         if math.isfinite(val) and val <= (1e9 if os.environ.get("MP_CALIB") else 1.0) and val > mr.get(key, 0.0):
             mr[key] = float(val)
 
@@ -669,6 +671,8 @@ class Point:
         tau = onp.asarray(P, dtype=float) @ F.T
         a = np_norm(tau - tau.T)
         allow = ALPHA["stress_sym_rel"] * np_norm(tau) + ALPHA["stress_abs"] * self.meta["Kref"]
+        if self.kind == "plastic":         # in the plastic regime the stress is only determined to the solver tolerance
+            allow += ALPHA["yield_factor"] * self.tol * self.meta["Y0"]
         if math.isfinite(a):
             self._track("sym_stress", a / allow)
         return bool(math.isfinite(a) and a <= allow)
